@@ -149,3 +149,91 @@ pub proof fn lemma_hyphen_represents(lo: Option<Partial>, up: Partial, r: Option
     }
     lemma_shape_represents(r, c);
 }
+
+// ===================== groundwork for C13: the reference reader of the range grammar reads a PRINTED version back =====================
+// g_partial(ver_text(v) + tail) is the full partial of v when what follows cannot continue the version (a terminator: blank, `|`, the end)
+pub open spec fn stops_version(tail: Seq<char>) -> bool { tail.len() == 0 || tail[0] == ' ' || tail[0] == '\t' || tail[0] == '|' }
+pub proof fn lemma_read_extras_tail(pre: Seq<Seq<char>>, build: Seq<Seq<char>>, tail: Seq<char>)
+    requires wf_ids(pre), wf_ids(build), stops_version(tail),
+    ensures g_extras(pre_text(pre) + (build_text(build) + tail)) == ((classify_all(pre), classify_all(build)), tail),
+{
+    let bt = build_text(build) + tail;
+    let s = pre_text(pre) + bt;
+    assert(classify_all(Seq::<Seq<char>>::empty()) =~= Seq::<ISpec>::empty());
+    assert(stops_idents(tail));
+    assert(stops_idents(bt)) by { if build.len() > 0 { assert(bt[0] == '+'); } else { assert(bt =~= tail); } }
+    if build.len() > 0 {
+        assert(bt =~= ch1('+') + (join_dots(build) + tail));
+        lemma_read_char('+', join_dots(build) + tail);
+        lemma_read_idents(build, tail);
+        assert(g_build(bt) == Some((classify_all(build), tail)));
+    } else {
+        assert(bt =~= tail);
+        assert(g_build(bt) is None) by { if tail.len() > 0 { lemma_no_char(tail, '+'); } }
+    }
+    if pre.len() > 0 {
+        assert(s =~= ch1('-') + (join_dots(pre) + bt));
+        lemma_read_char('-', join_dots(pre) + bt);
+        lemma_read_idents(pre, bt);
+        assert(g_pre(s) == Some((classify_all(pre), bt)));
+    } else {
+        assert(s =~= bt);
+        assert(pre =~= Seq::<Seq<char>>::empty());
+        if bt.len() > 0 { lemma_no_char(bt, '-'); }
+        lemma_no_ident(bt);
+        assert(g_pre(s) is None);
+        if build.len() == 0 { assert(build =~= Seq::<Seq<char>>::empty()); }
+    }
+}
+pub open spec fn full_pspec(v: Version) -> PSpec {
+    PSpec { major: Some(v.major as nat), minor: Some(v.minor as nat), patch: Some(v.patch as nat), pre: classify_all(texts(v.pre_release@)), build: classify_all(texts(v.build@)) }
+}
+pub proof fn lemma_partial_reads_printed_version(v: Version, tail: Seq<char>)
+    requires wf_version(v), stops_version(tail),
+    ensures g_partial(ver_text(v) + tail) == Some((full_pspec(v), tail)),
+{
+    broadcast use ax_dec_text;
+    lemma_ver_text_is_canonical(v);
+    lemma_texts_read_back(v.pre_release@);
+    lemma_texts_read_back(v.build@);
+    let ma = dec_text(v.major as nat); let mi = dec_text(v.minor as nat); let pa = dec_text(v.patch as nat);
+    let pre = texts(v.pre_release@); let build = texts(v.build@);
+    let ex = pre_text(pre) + (build_text(build) + tail);
+    let s = ver_text(v) + tail;
+    assert(s =~= ma + (ch1('.') + (mi + (ch1('.') + (pa + ex)))));
+    let t1 = ch1('.') + (mi + (ch1('.') + (pa + ex)));
+    let t3 = ch1('.') + (pa + ex);
+    // no `v`, no blanks: the text starts with a digit
+    assert(s[0] == ma[0]);
+    assert(dg_char(ma[0]));
+    assert(skip_lv(s) == s);
+    lemma_span_unique(s, |c: char| ws_char(c), 0);
+    assert(skip_ws(s) =~= s);
+    assert(g_xr(s) is None);
+    assert(stops_digits(t1)) by { assert(t1[0] == '.'); }
+    lemma_read_number(ma, t1);
+    assert(g_component(s) == Some((Some(dec_val(ma)), t1)));
+    // .minor
+    let t2 = mi + t3;
+    assert(t1 =~= ch1('.') + t2);
+    lemma_read_char('.', t2);
+    assert(t2[0] == mi[0]); assert(dg_char(mi[0]));
+    assert(g_xr(t2) is None);
+    assert(stops_digits(t3)) by { assert(t3[0] == '.'); }
+    lemma_read_number(mi, t3);
+    assert(g_dot_component(t1) == (Some(Some(dec_val(mi))), t3));
+    // .patch
+    let t4 = pa + ex;
+    assert(t3 =~= ch1('.') + t4);
+    lemma_read_char('.', t4);
+    assert(t4[0] == pa[0]); assert(dg_char(pa[0]));
+    assert(g_xr(t4) is None);
+    assert(stops_digits(ex)) by {
+        if pre.len() > 0 { assert(ex[0] == '-'); } else if build.len() > 0 { assert(ex =~= build_text(build) + tail); assert(ex[0] == '+'); } else { assert(ex =~= tail); }
+    }
+    lemma_read_number(pa, ex);
+    assert(g_dot_component(t3) == (Some(Some(dec_val(pa))), ex));
+    lemma_read_extras_tail(pre, build, tail);
+    let raw = PSpec { major: Some(dec_val(ma)), minor: Some(dec_val(mi)), patch: Some(dec_val(pa)), pre: classify_all(pre), build: classify_all(build) };
+    assert(norm(raw) == raw);
+}
